@@ -829,6 +829,7 @@ func (e *Env) probeAllowance(i int) int {
 // setup builds the channel and service for the scenario.
 func (e *Env) setup() {
 	sc := e.sc
+	codecTracking = strings.Contains(sc.Opts, "codec") && !e.native
 	e.clis = make([]*cli, len(sc.RPCs))
 	e.rec.RPCs = make([]*RPCRec, len(sc.RPCs))
 	for i := range e.rec.RPCs {
@@ -847,12 +848,20 @@ func (e *Env) setup() {
 		srv := httpgrpc.NewServer()
 		srv.RegisterService(desc, &svcImpl{})
 		if e.native {
-			e.srv = httptest.NewServer(srv)
+			var h http.Handler = srv
+			if strings.Contains(sc.Opts, "fullduplex") {
+				// the real thing: a middleware that switches the connection to full-duplex mode
+				h = http.HandlerFunc(func(w http.ResponseWriter, r *http.Request) {
+					http.NewResponseController(w).EnableFullDuplex()
+					srv.ServeHTTP(w, r)
+				})
+			}
+			e.srv = httptest.NewServer(h)
 			u, _ := url.Parse(e.srv.URL)
 			e.ch = &httpgrpc.Channel{Transport: http.DefaultTransport, BaseURL: u}
 		} else {
 			u, _ := url.Parse("http://mem")
-			e.ch = &httpgrpc.Channel{Transport: newMemTransport(srv, sc.EnvGiveUp), BaseURL: u}
+			e.ch = &httpgrpc.Channel{Transport: newMemTransport(srv, sc.EnvGiveUp, strings.Contains(sc.Opts, "fullduplex")), BaseURL: u}
 		}
 	case "direct":
 	default:
